@@ -10,8 +10,18 @@ package gentoo
 //@   ensures result == 0 ==> a == b                       [C01]
 //@   ensures result == (a < b ? -1 : (a > b ? 1 : 0))     [C03]
 
+//@ spec numAt(v *Version, i int) int = i < len(v.numbers) ? v.numbers[i] : 0
+//@ spec sameNumbers(v *Version, o *Version) bool = forall j int :: 0 <= j && (j < len(v.numbers) || j < len(o.numbers)) ==> numAt(v, j) == numAt(o, j)
+//@ spec rank(v *Version) int = v.suffix == "" ? 0 : suffixValues[v.suffix]
 //@ func (*Version).Compare
 //@   comparator v ~ other where wf(v) && wf(other)        [C01]
+// numbers compare numerically, a missing component counting as 0; then the letter; then the suffix rank
+// (alpha < beta < pre < rc < none < p), its number, and the revision (C03)
+//@   ensures first-difference: forall k int :: 0 <= k && (k < len(v.numbers) || k < len(other.numbers)) && (forall j int :: 0 <= j && j < k ==> numAt(v, j) == numAt(other, j)) && numAt(v, k) != numAt(other, k) ==> result == (numAt(v, k) < numAt(other, k) ? -1 : 1)   [C03]
+//@   ensures letter: sameNumbers(v, other) && v.letter != other.letter ==> result == strings.Compare(v.letter, other.letter)   [C03]
+//@   ensures suffix-rank: sameNumbers(v, other) && v.letter == other.letter && rank(v) != rank(other) ==> result == (rank(v) < rank(other) ? -1 : 1)   [C03]
+//@   ensures revision: sameNumbers(v, other) && v.letter == other.letter && rank(v) == rank(other) && (v.suffix == "" || v.suffixNum == other.suffixNum) ==> result == (v.revision < other.revision ? -1 : (v.revision > other.revision ? 1 : 0))   [C03]
+//@ lemma suffix-table [C03]: suffixValues["alpha"] < suffixValues["beta"] && suffixValues["beta"] < suffixValues["pre"] && suffixValues["pre"] < suffixValues["rc"] && suffixValues["rc"] < 0 && 0 < suffixValues["p"]
 
 // Data invariant of parsed versions: the suffix is absent or one of the ranked keywords (none ranks 0).
 //@ spec wf(v *Version) bool = v.suffix == "" || (has(suffixValues, v.suffix) && suffixValues[v.suffix] != 0)
@@ -55,3 +65,26 @@ package gentoo
 
 //@ func (*VersionRange).String
 //@   ensures text: result == arg0.original   [C18]
+
+// ---- range text to constraints (C02): an operator directly before a valid version; blanks and commas mean AND
+//@ func parseSingleConstraint
+//@   ensures one: result1 == nil ==> len(result0) == 1 && result0[0] != nil && result0[0].version != nil
+//@   ensures op>=: strings.HasPrefix(strings.TrimSpace(c), ">=") && result1 == nil ==> result0[0].operator == ">=" && result0[0].version == e.NewVersion(strings.TrimSpace(strings.TrimSpace(c)[2:])).0   [C02]
+//@   ensures op<=: strings.HasPrefix(strings.TrimSpace(c), "<=") && result1 == nil ==> result0[0].operator == "<=" && result0[0].version == e.NewVersion(strings.TrimSpace(strings.TrimSpace(c)[2:])).0   [C02]
+//@   ensures op!=: strings.HasPrefix(strings.TrimSpace(c), "!=") && result1 == nil ==> result0[0].operator == "!=" && result0[0].version == e.NewVersion(strings.TrimSpace(strings.TrimSpace(c)[2:])).0   [C02]
+//@   ensures op>: strings.HasPrefix(strings.TrimSpace(c), ">") && !strings.HasPrefix(strings.TrimSpace(c), ">=") && result1 == nil ==> result0[0].operator == ">" && result0[0].version == e.NewVersion(strings.TrimSpace(strings.TrimSpace(c)[1:])).0   [C02]
+//@   ensures op<: strings.HasPrefix(strings.TrimSpace(c), "<") && !strings.HasPrefix(strings.TrimSpace(c), "<=") && result1 == nil ==> result0[0].operator == "<" && result0[0].version == e.NewVersion(strings.TrimSpace(strings.TrimSpace(c)[1:])).0   [C02]
+//@   ensures op=: strings.HasPrefix(strings.TrimSpace(c), "=") && result1 == nil ==> result0[0].operator == "=" && result0[0].version == e.NewVersion(strings.TrimSpace(strings.TrimSpace(c)[1:])).0   [C02]
+//@   ensures accepts: (strings.HasPrefix(strings.TrimSpace(c), ">=") || strings.HasPrefix(strings.TrimSpace(c), "<=") || strings.HasPrefix(strings.TrimSpace(c), "!=")) && strings.TrimSpace(strings.TrimSpace(c)[2:]) != "" && e.NewVersion(strings.TrimSpace(strings.TrimSpace(c)[2:])).1 == nil ==> result1 == nil   [C02]
+//@   ensures accepts1: (strings.HasPrefix(strings.TrimSpace(c), ">") || strings.HasPrefix(strings.TrimSpace(c), "<") || strings.HasPrefix(strings.TrimSpace(c), "=")) && !strings.HasPrefix(strings.TrimSpace(c), ">=") && !strings.HasPrefix(strings.TrimSpace(c), "<=") && strings.TrimSpace(strings.TrimSpace(c)[1:]) != "" && e.NewVersion(strings.TrimSpace(strings.TrimSpace(c)[1:])).1 == nil ==> result1 == nil   [C02]
+
+//@ func parseRange
+//@   loop 1 invariant len(constraints) == rangeindex + 1 && (forall j int :: 0 <= j && j <= rangeindex ==> constraints[j] == parseSingleConstraint(e, parts[j]).0[0])
+//@   ensures and-list: len(strings.Fields(strings.ReplaceAll(strings.TrimSpace(rangeStr), ",", " "))) > 1 && result1 == nil ==> len(result0) == len(strings.Fields(strings.ReplaceAll(strings.TrimSpace(rangeStr), ",", " "))) && (forall j int :: 0 <= j && j < len(result0) ==> result0[j] == parseSingleConstraint(e, strings.Fields(strings.ReplaceAll(strings.TrimSpace(rangeStr), ",", " "))[j]).0[0])   [C02]
+//@   ensures single: len(strings.Fields(strings.ReplaceAll(strings.TrimSpace(rangeStr), ",", " "))) <= 1 ==> result0 == parseSingleConstraint(e, strings.TrimSpace(rangeStr)).0 && (result1 == nil) == (parseSingleConstraint(e, strings.TrimSpace(rangeStr)).1 == nil)   [C02]
+
+// lifting to whole ranges: an AND-range of comparator constraints treats versions that compare equal alike (the two
+// quantified sides are what Contains returns for v1 and v2, by its `and` clause)
+//@ lemma c20-range-equal [C20] uses c20-equal: forall gr *VersionRange, v1, v2 *Version :: gr != nil && v1 != nil && v2 != nil && wfRange(gr) && (forall i int :: 0 <= i && i < len(gr.constraints) ==> gr.constraints[i].version != nil && (gr.constraints[i].operator == "=" || gr.constraints[i].operator == "!=" || gr.constraints[i].operator == "<" || gr.constraints[i].operator == "<=" || gr.constraints[i].operator == ">" || gr.constraints[i].operator == ">=")) && v1.Compare(v2) == 0 ==> ((forall i int :: 0 <= i && i < len(gr.constraints) ==> gr.constraints[i].matches(v1)) == (forall i int :: 0 <= i && i < len(gr.constraints) ==> gr.constraints[i].matches(v2)))
+// ... and the set a range without != accepts is convex in the order
+//@ lemma c20-range-convex [C20] uses c20-convex: forall gr *VersionRange, a, b, d *Version :: gr != nil && a != nil && b != nil && d != nil && wfRange(gr) && (forall i int :: 0 <= i && i < len(gr.constraints) ==> gr.constraints[i].version != nil && (gr.constraints[i].operator == "=" || gr.constraints[i].operator == "!=" || gr.constraints[i].operator == "<" || gr.constraints[i].operator == "<=" || gr.constraints[i].operator == ">" || gr.constraints[i].operator == ">=") && gr.constraints[i].operator != "!=") && a.Compare(b) <= 0 && b.Compare(d) <= 0 && (forall i int :: 0 <= i && i < len(gr.constraints) ==> gr.constraints[i].matches(a)) && (forall i int :: 0 <= i && i < len(gr.constraints) ==> gr.constraints[i].matches(d)) ==> (forall i int :: 0 <= i && i < len(gr.constraints) ==> gr.constraints[i].matches(b))
